@@ -3,6 +3,7 @@ CONSTANTS
   MaxTime = 3
   Cap0 = 0
   Faults = FALSE
+  CapMode = "fixed"
   GetMode = "getAsCoded"
   Emit = FALSE
 INIT Init
